@@ -66,6 +66,10 @@ func (r *RNN) Apply(inputs []tensor.Tensor) ([]tensor.Tensor, error) {
 		return nil, ops.ErrUnsupportedInput("sequence lens", r)
 	}
 
+	if len(r.activations) < 1 {
+		return nil, ops.ErrInvalidAttribute(ops.ActivationsAttr, r)
+	}
+
 	X := inputs[0]
 	seqLength := X.Shape()[0]
 	batchSize := X.Shape()[1]
